@@ -60,7 +60,7 @@ def all_calls(ana: Analysis, pred, include_indirect=False) -> List[CallSite]:
 
 def bind_args(f: FuncInfo, call: ast.Call, skip_self=False) -> Dict[str, ast.expr]:
     """Bind the argument expressions of a direct call to the callee's parameter names."""
-    params = list(f.params)
+    params = list(f.own_params)
     if skip_self and params and params[0] in ("self", "cls"):
         params = params[1:]
     out: Dict[str, ast.expr] = {}
